@@ -8,6 +8,7 @@ import pC08
 ID = "C09"
 COQ_IMPORTS = ["From HTA.lib Require Import Dag.", "From HTA.model Require Import C08_Model."]
 SOURCES = cp.SOURCES
+INPUT_CONTRACT = True        # the loaded frame is re-checked against the file (framework.input_contract)
 N_CASES = {"quick": 250, "thorough": 4000}
 RULE = ("the graphs critical_path_analysis builds for generated causally consistent traces and windows (as C08), and for each graph two re-weighted copies "
         "(random edges scaled by 0, 2, 3 or 10 through the networkx weight attribute, critical_path() recomputed: the documented what-if workflow); for every one of "
